@@ -160,7 +160,12 @@ func verifyLemma(p *Program, l *Lemma, timeoutS int) *FuncResult {
 			for _, g := range goals {
 				parts = append(parts, g.t.S)
 			}
-			r := solveStaged(prefix+"(assert (not (and "+strings.Join(parts, " ")+" true)))\n(check-sat)\n", timeoutS)
+			var r solveResult
+			if len(goals) == 1 {
+				r = solveLeaf(prefix+"(assert (not "+parts[0]+"))\n(check-sat)\n", timeoutS)
+			} else {
+				r = solveStaged(prefix+"(assert (not (and "+strings.Join(parts, " ")+" true)))\n(check-sat)\n", timeoutS)
+			}
 			if r.Result == "unsat" || len(goals) == 1 {
 				record(goals, r)
 				return
@@ -177,7 +182,7 @@ func verifyLemma(p *Program, l *Lemma, timeoutS int) *FuncResult {
 				wg2.Add(1)
 				go func() {
 					defer wg2.Done()
-					r := solveStaged(prefix+hs+"(assert (not "+g.t.S+"))\n(check-sat)\n", timeoutS)
+					r := solveLeaf(prefix+hs+"(assert (not "+g.t.S+"))\n(check-sat)\n", timeoutS)
 					record([]goalT{g}, r)
 				}()
 			}
